@@ -126,6 +126,22 @@ impl DetectProp for C01 {
                 v.push(Case { bytes: b, sett: s, tag: format!("nomodel:large-declared-bad-tail:{}", enc) });
             }
         }
+        // exactly at / around 1 000 000 bytes: a code page with unmapped bytes, one of them in the tail
+        for (k, len) in [1_000_000usize, 1_000_001, 999_999].iter().enumerate() {
+            if k > 0 && !thorough {
+                break;
+            }
+            let line = b"plain text line without anything special in it, repeated many times over.\n";
+            let mut b: Vec<u8> = Vec::with_capacity(*len);
+            while b.len() < *len {
+                b.extend_from_slice(line);
+            }
+            b.truncate(*len);
+            b[700_001] = 0xff; // unmapped in windows-1253 / iso-8859-7
+            let mut s = Sett::default();
+            s.incl = vec!["windows-1253".into(), "iso-8859-7".into(), "utf-8".into()];
+            v.push(Case { bytes: b, sett: s, tag: format!("directed:size-boundary:{}", len) });
+        }
         if thorough {
             v.push(Case { bytes: big(1_000_050, 499_990), sett: s.clone(), tag: "directed:large-filtered:head".into() });
             for (len, pos) in [(1_000_050usize, 900_000usize), (999_990, 700_000), (1_200_000, 1_199_999)] {
